@@ -12,7 +12,14 @@ _mock = I + "tracing/builtins_mock.py"
 _state = I + "tracing/state.py"
 
 M = {
+    "C24": [
+        ("barrier does not look at its arguments", I + "checker/unitary_checker.py",
+         "        # Barrier is always allowed, but its arguments still have to be checked\n        for arg in node.args:\n            self.visit(arg)", "        pass", "R-C24.8"),
+    ],
     "C12": [
+        ("transforming a function type drops its comptime arguments", I + "tys/ty.py",
+         "            comptime_args=[\n                cast(ConstArg, arg.transform(transformer)) for arg in self.comptime_args\n            ],\n            unitary_flags=self.unitary_flags,\n        )\n\n    def instantiate_partial",
+         "            unitary_flags=self.unitary_flags,\n        )\n\n    def instantiate_partial", "R-C12.7"),
         ("type_check_args merges the solutions of the arguments with |= again", _ec,
          "        a, s = ExprChecker(ctx).check(inp, func_inp.ty.substitute(subst), \"argument\")\n        subst = resolve_subst(subst | s)",
          "        a, s = ExprChecker(ctx).check(inp, func_inp.ty.substitute(subst), \"argument\")\n        subst |= s", "R-C12.8"),
@@ -41,6 +48,8 @@ M = {
          "    elt = builder.visit(elt)\n    return gens, elt", "    return gens, elt", "R-C17.3"),
     ],
     "C05": [
+        ("the qsystem release operations are not side-effecting", I + "compiler/core.py",
+         "        for op_name in (\"Measure\", \"QFree\", \"LazyMeasureLeaked\")", "        for op_name in ()", "R-C05.2"),
         ("callable(e) drops e again", _chk,
          "        if isinstance(arg, PlaceNode | GlobalName):\n            return const, bool_type()", "        if True:\n            return const, bool_type()", "R-C05.1"),
     ],
@@ -57,6 +66,8 @@ M = {
          "    parts = re.split(r\"(\\d+)\", str(place))", "    parts = re.split(\"([0-9]+)\", str(place))", None),
     ],
     "C01": [
+        ("names that differ in leading zeros tie again", _cfgc,
+         "    key1 = (p1.ty.linear, _name_key(p1), str(p1))\n    key2 = (p2.ty.linear, _name_key(p2), str(p2))", "    key1 = (p1.ty.linear, _name_key(p1))\n    key2 = (p2.ty.linear, _name_key(p2))", "R-C01.6"),
         ("regular outputs keep every non-droppable place again", _cfgc,
          "            outputs = [v for v in first if v.ty.linear]", "            outputs = [v for v in first if not v.ty.droppable]", "R-C01.6"),
         ("the guard of the branch sum refuses copyable non-droppable places", _cfgc,
